@@ -84,6 +84,8 @@ inductive Prim : State → State → Prop
   | startBegin (s) (h : s.st = .init) (hi : s.start = .idle) : Prim s (aStartBegin s)
   | resolveSet (ok s) (h : s.start = .awaitResolve) : Prim s (aResolveSet ok s)
   | sockSet (ok s) (h : s.start = .awaitSocket) : Prim s (aSockSet ok s)
+  | sockFaulty (s) : Prim s (aSockFaulty s)
+  | sockFaultClose (s) (h : s.start = .awaitSocket) (hr : s.sockRes ≠ .none) : Prim s (aSockFaultClose s)
   | userCancelStart (s) (h : StartPend s) : Prim s (aUserCancelStart s)
   | finishBegin (s) (h : s.st = .sockOpen) (hi : s.finish = .idle) : Prim s (aFinishBegin s)
   | connMadeFail (s) (h : s.finish = .awaitTransport) : Prim s (aConnMadeFail s)
@@ -232,6 +234,17 @@ theorem reach_failStart (s : State) (ex : Exc) (h : StartPend s) (hd : StartDue 
     by_cases h1 : s.startFut = .pending <;> simp [h1]
   · simp [aStartFutQuiet, cleanup, aStartExit]
 
+theorem reach_sockFault (s : State) (hs : s.start = .awaitSocket) (hr : s.sockRes ≠ .none) :
+    Reach s (let s' := aSockFaultClose s; aStartDone (.err (wrap s' .os)) (aStartFutQuiet s')) := by
+  dsimp only
+  refine .snoc (.snoc (.one (.sockFaultClose s hs hr)) (.startFutQuiet _ rfl)) (.startFail _ _ ?_ ?_ ?_ ?_ ?_)
+  · simp [aStartFutQuiet, aSockFaultClose, cleanup]
+  · simp [StartPend, aStartFutQuiet, aSockFaultClose, cleanup, aStartExit, aSockAttachOnly, hs]
+  · simp only [aStartFutQuiet, aSockFaultClose, cleanup, aStartExit, aSockAttachOnly]
+    by_cases h1 : s.startFut = .pending <;> simp [h1]
+  · simp [aStartFutQuiet, aSockFaultClose, cleanup, aStartExit, aSockAttachOnly]
+  · simp [aStartFutQuiet, aSockFaultClose, cleanup, aStartExit, aSockAttachOnly]
+
 theorem reach_failFinish (s : State) (ex : Exc) (h : FinPend s)
     (hh : s.finish = .awaitHello → s.hello.timer = false ∧ s.hello.registered = false) (hd : FinDue s) :
     Reach s (failFinish s ex) := by
@@ -275,7 +288,10 @@ theorem reach_stepStart (s : State) : Reach s (stepStart s) := by
       · split
         · exact .refl s
         · rename_i hr; exact reach_failStart s _ hp (Or.inr ⟨hs, Or.inr (Or.inr (by simp [hr]))⟩)
-        · exact .one (.startOk s hs)
+        · split
+          · rename_i hr _
+            exact reach_sockFault s hs (by simp [hr])
+          · exact .one (.startOk s hs)
   · exact .refl s
 
 theorem reach_sendHello (s : State) (hp : s.finish = .awaitTransport ∨ s.finish = .awaitReady) (hst : s.st = .hsDone)
@@ -456,6 +472,7 @@ theorem step_reach (s : State) (e : Ev) : Reach s (step s e) := by
     simp only [step]; split
     · exact .one (.resolveSet ok s (by simp_all))
     · exact .refl s
+  | sockFault => exact .one (.sockFaulty s)
   | sockDone ok =>
     simp only [step]; split
     · exact .one (.sockSet ok s (by simp_all))
